@@ -92,6 +92,15 @@ def satSubS {w : Nat} (a b : BitVec w) : BitVec w :=
 def satAddU {w : Nat} (a b : BitVec w) : BitVec w :=
   BitVec.ofNat w (min (2 ^ w - 1) (a.toNat + b.toNat))
 
+/-! ### lanes of the vector-extension contexts (vector_extension.hpp:186-208: `x + y`, `x - y`, `x * y` on
+    `T __attribute__((vector_size))`) -/
+
+/-- one lane of `x op y` on a vector of `T`: the arithmetic is done IN `T` (no integral promotion on vector lanes), so for a
+    signed `T` a result outside `T` is signed overflow = undefined behaviour (`none`; g++ emits wrapping code, UBSan aborts);
+    unsigned lanes wrap -/
+def vecExtLane (t : IntTy) (o : IOp) (a b : BitVec t.bits) : Option (BitVec t.bits) :=
+  if t.signed && !decide (t.InRange (o.exact (t.decode a) (t.decode b))) then none else some (o.lane a b)
+
 /-! ### the register type of the vector-extension contexts (vector_extension.hpp:19-20) -/
 
 /-- lanes of `vector_type_t<bit_width,T>` = `T __attribute__((vector_size(bit_width / sizeof(T))))`: the attribute
